@@ -126,6 +126,14 @@ def run_structure(rng, obs):
     W = [math.prod(t) for t in cart(wts)]
     ck(c.npts == len(P) == int(np.prod(pts)), 'npts is the product of the factor sizes', observed=int(c.npts))
     ck([tuple(p) for p in c.positions] == P, 'positions are the Cartesian product in the documented order', observed=c.positions[:5], expected=P[:5])
+    if all(q == 2 for q in pts):       # select(): positions by index, documented for measures of 2^K points
+        N_ = len(P)
+        picks = [list(range(N_)), [rng.randrange(N_)], sorted(rng.sample(range(N_), rng.randint(1, N_))), list(range(rng.randint(1, N_))), [0], [rng.randrange(max(1, N_ // 2))] * 2]
+        for idx in picks:
+            got = c.select(*idx)
+            got = [tuple(got)] if len(idx) == 1 else [tuple(q) for q in got]      # (a single index gives the position itself)
+            ck(got == [P[i] for i in idx], 'select(*index) gives the product positions with those indices', index=idx, observed=got[:4], expected=[P[i] for i in idx][:4])
+        obs.event('select_cases')
     ck(len(c.weights) == len(W) and all(R.close(float(a), b) for a, b in zip(c.weights, W)), 'point weights are the products of the factor weights',
        observed=[float(v) for v in c.weights[:5]], expected=W[:5])
     ck(all(R.close(a, math.fsum(w)) for a, w in zip(c.mass, wts)), 'mass lists the factor masses', observed=list(c.mass))
